@@ -765,8 +765,10 @@ class BlockGeneralImportsOpMode(Block):
         self.push(f'"encoding/json"', indent=1)
         self.push(f")")
 
-        self.push_empty_line()
 
+class BlockAvoidGeneralImportsNotUsedOpMode(Block):
+    @override(Block)
+    def render(self) -> None:
         self.push_comment("Avoid possible golang import not used error")
         self.push(f"var formatInt = strconv.FormatInt")
         self.push(f"var jsonMarshal = json.Marshal")
@@ -880,6 +882,7 @@ class BlockListOpMode(BlockComposition[F]):
             BlockPackageName(self.bound),
             BlockGeneralImportsOpMode(),
             BlockImportChildProtoList(),
+            BlockAvoidGeneralImportsNotUsedOpMode(),
             BlockBoundDefinitionListOpMode(),
             BlockGeneralFunctionBool2ByteOpMode(),
             BlockGeneralFunctionByte2boolOpMode(),
